@@ -416,6 +416,7 @@ impl<'a> G<'a> {
         }
         self.prefix_sibling(&mut m);
         self.escaped_twin(&mut m);
+        self.hash_twin(&mut m);
         self.lookalike_sibling(&mut m);
         self.child_named_like_parent(&mut m);
         Value::Object(m)
@@ -528,6 +529,26 @@ impl<'a> G<'a> {
                 m.insert(third, c);
             }
         }
+    }
+
+    /// Occasionally two sibling members whose names collide under a common non-cryptographic 32-bit hash
+    /// (FNV-1a, FNV-1, Java's String.hashCode, djb2, CRC-32): a table keyed by such a fingerprint of the
+    /// name instead of the name confuses exactly these.
+    fn hash_twin(&mut self, m: &mut Map<String, Value>) {
+        if !self.r.chance(3) {
+            return;
+        }
+        const PAIRS: [(&str, &str); 10] = [
+            ("costarring", "liquid"), ("declinate", "macallums"), ("altarage", "zinke"), ("altarages", "zinkes"),
+            ("Aa", "BB"), ("AaAa", "BBBB"), ("AaBB", "BBAa"), ("plumless", "buckeroo"), ("hetairas", "mentioner"), ("heliotropes", "neurospora"),
+        ];
+        let (a, b) = *self.r.pick(&PAIRS);
+        if m.contains_key(a) || m.contains_key(b) {
+            return;
+        }
+        let (x, y) = (self.leaf(), self.leaf());
+        m.insert(a.to_string(), x);
+        m.insert(b.to_string(), y);
     }
 
     fn array(&mut self, depth: u32) -> Value {
